@@ -292,14 +292,5 @@ func Replay(rp map[string]any) (bool, string) {
 	if err != nil {
 		return false, err.Error()
 	}
-	s := m.New()
-	var obs []string
-	for _, op := range hist {
-		obs = append(obs, m.Apply(s, op))
-	}
-	m.Check(s, hist, obs, rep)
-	if len(rep.Violations) > 0 {
-		return true, rep.Violations[0].Detail
-	}
-	return false, fmt.Sprintf("history %v: oracle satisfied", m.OpNames(hist))
+	return m.ReplayHistory(hist, rep)
 }
